@@ -380,6 +380,34 @@ pub fn cases(prop: &str, seed: u64, tier: &str) -> Vec<String> {
                     out.push("W".into());
                 }
             }
+            {
+                // source-file values with white space at their edges (the JSON header form keeps the value verbatim,
+                // the key:value form trims it): written, decoded by the layout checker, self test
+                let m = "a.A -> a:\n# {\"id\":\"sourceFile\",\"fileName\":\" Foo.kt\"}\n    1:2:void f():5:6 -> m\nb.B -> b:\n# {\"id\":\"sourceFile\",\"fileName\":\"Bar.kt\u{3000}\"}\n    void g() -> n\nc.C -> c:\n#   sourceFile  :   Baz.kt  \n    void h() -> o\nd.D -> d:\n# {\"id\":\"sourceFile\",\"fileName\":\"\tT ab.kt\t\"}\n    1:1:void i():1 -> p\n";
+                push_mapping(&mut out, m.as_bytes());
+                out.push("W".into());
+            }
+            {
+                // one class with a little more than 2^16 distinct by-params entries; the entries i and 65536 + i
+                // (i < 64) share obfuscated name and parameters and differ in the original name: a 16-bit
+                // position / index anywhere in the writer makes them tie (implementation-only: too big for the model)
+                let (n, k) = (65536usize, 64usize);
+                let mut m = String::from("com.example.Big -> a:\n");
+                for i in 0..k {
+                    m.push_str(&format!("    {}:{}:void first{}() -> x\n", 2 * i + 1, 2 * i + 1, i));
+                }
+                for i in k..n {
+                    m.push_str(&format!("    {}:{}:void filler{}() -> f{}\n", 2 * i + 1, 2 * i + 1, i, i));
+                }
+                for i in 0..k {
+                    let l = 2 * (n + i) + 1;
+                    m.push_str(&format!("    {}:{}:void second{}() -> x\n", l, l, i));
+                }
+                out.push(format!("M {} =nomodel", hex(m.as_bytes())));
+                out.push("W".into());
+                out.push(format!("PI {} {} {}", hex(b"a"), hex(b"x"), hex(b"")));
+                out.push("W".into());
+            }
             let b = budget(tier, 300, 6000);
             for i in 0..b.mappings {
                 let o = GenOpts { dom: Dom::Representable, max_classes: if i % 25 == 0 { 120 } else { 6 }, noise: true };
@@ -523,6 +551,29 @@ pub fn cases(prop: &str, seed: u64, tier: &str) -> Vec<String> {
                         };
                         out.push(format!("X {}{}", hex(&e), tag));
                         out.extend(qs.iter().take(4).cloned());
+                    }
+                }
+                // every permutation of the four magic bytes: only the full reversal is the other endianness
+                {
+                    let mg = [full[0], full[1], full[2], full[3]];
+                    for a in 0..4usize {
+                        for b2 in 0..4usize {
+                            for c in 0..4usize {
+                                for d in 0..4usize {
+                                    let mut seen = [false; 4];
+                                    for x in [a, b2, c, d] {
+                                        seen[x] = true;
+                                    }
+                                    if seen != [true; 4] || [a, b2, c, d] == [0, 1, 2, 3] {
+                                        continue;
+                                    }
+                                    let mut e = full.clone();
+                                    e[0..4].copy_from_slice(&[mg[a], mg[b2], mg[c], mg[d]]);
+                                    let tag = if [a, b2, c, d] == [3, 2, 1, 0] { " =expect:WrongEndianness" } else { " =expect:WrongFormat" };
+                                    out.push(format!("X {}{}", hex(&e), tag));
+                                }
+                            }
+                        }
                     }
                 }
                 // two-field edits: what a writer of the other endianness / another format would produce
@@ -835,6 +886,25 @@ fn fixed_shapes(out: &mut Vec<String>, r: &mut Rng, as_buffer: bool) {
         h("s.a"), h("s.c"), h("x"), h("int"), h("s.c"), h("x"), h("int,java.lang.String"), h("s.c"), h("x"), h("s.c"), h("x"), h(""),
         h("s.a"), h("m"), h("R8$$SyntheticClass"), h("s.b"), h("m"), h("s.b"), h("m"), h("F.java")
     ));
+    // second fixed mapping (own generator state, so that the random stream of the cases after it is unchanged):
+    // synthetic-class source file on classes whose last segment starts with `$`, has no package, is `$` only
+    {
+        let mut m2 = String::new();
+        m2.push_str("com.example.$Proxy0 -> s.f:\n# {\"id\":\"sourceFile\",\"fileName\":\"R8$$SyntheticClass\"}\n    1:3:void run():10:12 -> m\n");
+        m2.push_str("$Top -> s.g:\n# {\"id\":\"sourceFile\",\"fileName\":\"R8$$SyntheticClass\"}\n    1:3:void run():10:12 -> m\n    4:4:void pkg.$$Lambda$1.call():7 -> m\n    5:5:void pkg.sub.$.call():8 -> m\n");
+        m2.push_str("com.example.Outer$Inner -> s.h:\n# {\"id\":\"sourceFile\",\"fileName\":\"R8$$SyntheticClass\"}\n    1:3:void run():10:12 -> m\n");
+        let mut r2 = Rng(0x5eed_5eed);
+        push_mapping(out, m2.as_bytes());
+        emit_queries(out, m2.as_bytes(), &mut r2, QuerySel { class: true, method: true, lines: true, params: true, all_lines: false, both_files: true });
+        for c in ["s.f", "s.g", "s.h"] {
+            for l in [0usize, 1, 2, 3, 4, 5, 6] {
+                out.push(format!("L {} {} {} {}", h(c), h("m"), l, h("R8$$SyntheticClass")));
+                out.push(format!("L {} {} {} ~", h(c), h("m"), l));
+            }
+        }
+        out.push(format!("S {}", h("x.Y: boom\n    at s.f.m(SourceFile:2)\n    at s.g.m(SourceFile:4)\n    at s.g.m(SourceFile:5)\nCaused by: s.h: x\n    at s.h.m(R8$$SyntheticClass:1)\n")));
+        out.push(format!("Y {}", h("x.Y: boom\n    at s.f.m(SourceFile:2)\n    at s.g.m(SourceFile:4)\n    at s.g.m(SourceFile:5)\nCaused by: s.h: x\n    at s.h.m(R8$$SyntheticClass:1)\n")));
+    }
 }
 
 /// huge structure (thorough tier): more than 65536 classes, more than 65536 members with distinct names in one
